@@ -79,6 +79,18 @@ CHECKS = {
             "P_C11.Intercept computed from the text.",
             "5 C11", "TLC over tables extracted from the code (exhaustive) + TLC trace validation of the identity pipeline",
             "undefined behaviour of transmute is not observable, only its precondition (equal discriminant sets) is checked; Linux code tables"),
+    "C12": ("model_checking",
+            "Part 1: TLC enumerates defseq tables (<=3 definitions of <=2 items and <=2 definitions of <=3 items over {a, b, S-a, "
+            "S-(a b), O-(a b), O-(a b c)}, plus seeded triples), decides StAccepts (prefix-freedom over every permitted ordering, "
+            "arity) in spec/SeqTab.tla and checks the modelled insertion procedure against it; every table goes through the real "
+            "parser (accept/reject and trie contents compared; disagreements judged by TLC). Part 2: TLC checks L1 (Kanata.tla + "
+            "SeqMode.tla, trie from the parser dump) against the monitor P_C12 (S1 exactly-once, S2, S3 dead end / timeout on the "
+            "exact tick, S4 per input mode) for every history within the instance bounds; every model transition is replayed on the "
+            "real code incl. the SequenceState; TLC-enumerated typing histories (spec/SeqEnv.tla) for fixed and seeded tables and "
+            "random histories are recorded from the code and validated by TLC against P_C12.",
+            "5 C12", TECH, BOUNDS + "; MC instances: 2-3 sequence keys + leader, <=2 pending inputs, T in 1..3, typed keys bounded; "
+            "P_C12 is soft where the documentation is silent (backtracking matches, a sequence that is also the beginning of a longer "
+            "one, overlap groups begun while earlier keys are down); sequence-always-on not combined with hidden-suppressed"),
     "C13": ("model_checking",
             "TLC enumerates override tables x active-key lists and checks the transliteration of key_override.rs (spec/Overrides.tla) "
             "against the relation P_C13.Allowed written from the statement; the real Overrides::override_keys is called on every "
@@ -125,6 +137,18 @@ CHECKS = {
             "binds L1 to the code; model-level counterexamples and random schedules are recorded from the code and validated by "
             "TLC against P_C17.",
             "5 C17", TECH, BOUNDS + "; histories with more than list-length+1 unconsumed taps are not expanded"),
+    "C20": ("model_checking",
+            "TLC explores spec/Zippy.tla (L1 transliteration of zippychord.rs: press/release/tick, constants and subset-map answers from the "
+            "real parser) composed with the text-buffer reference model P_C20 (expected text defined on the history: literal typing, base ++ "
+            "expansion (++ smart space), longer chord supersedes, follow-up replaces antecedent, modifiers restored) for every physically "
+            "consistent history per dictionary instance (extension, overlap, shared prefixes, follow-ups, upper/lower case, shifts, altgr, "
+            "smart space add/full, space key); every model transition is replayed on the real code; model-level rejections, drifting edges, "
+            "every entry x permutation x gap x shift x 1-2 further keys, and random typing over random dictionaries are recorded from the "
+            "real code and validated by TLC against P_C20.",
+            "5 C20", TECH,
+            "dictionaries <= 4 lines over {a,b,c,space}(+comma); D,W in 2..3 ticks in exhaustive instances (up to 20 in recorded runs); "
+            "<= 3-4 character presses per hold, histories unbounded; identity layout, one key event per tick; OS ignores a press of a key "
+            "already down; caps-word, no-erase/single-output mappings and the 10 000-tick reset (C07) not covered"),
 }
 
 NOT_APPLICABLE = {}
